@@ -90,6 +90,20 @@ def verify(d):
             res["tests_diff"] = {"new": [i for i in ids if i not in base][:10], "gone": [i for i in base if i not in ids][:10]}
     finally:
         drop_tree(tree)
+    # record the outcome in meta.json
+    mp = os.path.join(d, "meta.json")
+    try:
+        meta = json.load(open(mp))
+        head = sh("git -C /repo rev-parse --short HEAD")[1].strip()
+        ok = res.get("demo_without") == 0 and res.get("demo_with") not in (0, None) and bool(res.get("tests_same_as_baseline"))
+        meta["verified"] = {"ok": ok, "repo_head": head, "demo_exit_without_change": res.get("demo_without"), "demo_exit_with_change": res.get("demo_with"),
+                            "demo_message": res.get("demo_with_msg"), "tests_with_change": res.get("tests"), "tests_same_as_baseline": res.get("tests_same_as_baseline"),
+                            "ran": "tools/seeded.py verify (scratch worktree of /repo HEAD, demo without/with the patch, baseline pytest command with the patch)"}
+        if res.get("apply", "ok") != "ok":
+            meta["verified"]["apply"] = res["apply"]
+        json.dump(meta, open(mp, "w"), indent=1)
+    except Exception as e:  # noqa
+        res["meta_update_error"] = str(e)
     return res
 
 
